@@ -4,7 +4,7 @@
    Columns: [validity 0/1 ...] [raw values ...]; outputs print the value of a null slot as 0.
    Errors: [-1;1] cast error, [-1;8] panic; [-3] = pair / input outside the model (never generated). *)
 From Coq Require Import List ZArith NArith String Bool.
-From AV Require Import Base.Codec Model.C13_Num Model.C13_Decimal Model.C13_Cast Model.C13_Text Model.C13_Interval.
+From AV Require Import Base.Codec Model.C13_Num Model.C13_Decimal Model.C13_Cast Model.C13_Text Model.C13_Interval Model.C13_List.
 Import ListNotations.
 Local Open Scope string_scope.
 Local Open Scope Z_scope.
@@ -166,8 +166,32 @@ Definition s_ivtext_rt (a : args) : list (list Z) :=
   else if kind =? 1 then [zs_of_bools v; col (arg 2 a); col (arg 3 a)]
   else [zs_of_bools v; col (arg 2 a)].
 
+(* c13.list2fsl: [large; n; safe; inner_to] [offsets of the FULL list array] [list validity] [child validity]
+   [child values] [row_off; row_len; child_pad]: the list array is sliced to rows row_off .. row_off+row_len.
+   Output [row validity] [inner validity, n per row] [inner values, n per row] (null rows / elements print 0). *)
+Definition l2f_args (a : args) : bool * Z * list elem * list Z * list bool :=
+  let n := nth 1 (arg 0 a) 0 in let safe := negb (nth 2 (arg 0 a) 0 =? 0) in
+  let ro := Z.to_nat (nth 0 (arg 5 a) 0) in let rl := Z.to_nat (nth 1 (arg 5 a) 0) in
+  let child := map (fun s : bool * Z => if fst s then Some (snd s) else None) (combine (bools_of (arg 3 a)) (arg 4 a)) in
+  (safe, n, child, firstn (S rl) (skipn ro (arg 1 a)), firstn rl (skipn ro (bools_of (arg 2 a)))).
+Definition out_fsl (n : Z) (r : option (list (option (list elem)))) : list (list Z) :=
+  match r with
+  | None => err_out 1
+  | Some rows =>
+      let pad := repeat (None : elem) (Z.to_nat n) in
+      let flat := flat_map (fun x => match x with Some l => l | None => pad end) rows in
+      [map (fun x => match x with Some _ => 1 | None => 0 end) rows;
+       map (fun e : elem => match e with Some _ => 1 | None => 0 end) flat;
+       map (fun e : elem => match e with Some v => v | None => 0 end) flat]
+  end.
+Definition d_list2fsl (a : args) : list (list Z) :=
+  let '(safe, n, child, offs, valid) := l2f_args a in out_fsl n (list_to_fsl safe n child offs valid).
+Definition s_list2fsl (a : args) : list (list Z) :=
+  let '(safe, n, child, offs, valid) := l2f_args a in out_fsl n (list_to_fsl_spec safe n child offs valid).
+
 Definition ops_C13 : list (string * opfun) :=
   [ ("c13.cast", d_cast); ("c13.cast_m", d_cast); ("c13.cast.spec", s_cast); ("c13.inverse.spec", s_inverse);
     ("c13.fmt", d_fmt); ("c13.parse", d_parse); ("c13.parse.spec", s_parse); ("c13.parse_decimal", d_parse_decimal);
     ("c13.text_rt.spec", s_identity 2 3); ("c13.one.post1", p_one);
-    ("c13.ivcast", d_ivcast); ("c13.ivcast.spec", s_ivcast); ("c13.ivfmt", d_ivfmt); ("c13.ivtext_rt.spec", s_ivtext_rt) ].
+    ("c13.ivcast", d_ivcast); ("c13.ivcast.spec", s_ivcast); ("c13.ivfmt", d_ivfmt); ("c13.ivtext_rt.spec", s_ivtext_rt);
+    ("c13.list2fsl", d_list2fsl); ("c13.list2fsl.spec", s_list2fsl) ].
